@@ -132,70 +132,85 @@ pub mod clock {
     }
 }
 
+/// `std::time` with `Instant` read from the simulated monotonic clock: a worker that measures how
+/// long it has been idle measures simulated time, which the simulator can move
+pub mod simtime {
+    pub use ::std::time::{Duration, SystemTime, SystemTimeError, UNIX_EPOCH};
+    use ::std::ops::{Add, AddAssign, Sub, SubAssign};
+
+    #[derive(Clone, Copy, PartialEq, Eq, PartialOrd, Ord, Hash, Debug)]
+    pub struct Instant(u64);
+
+    impl Instant {
+        pub fn now() -> Instant {
+            Instant(crate::clock::mono_ns().saturating_add(crate::clock::work_ns()))
+        }
+        pub fn elapsed(&self) -> Duration {
+            Instant::now().saturating_duration_since(*self)
+        }
+        pub fn duration_since(&self, earlier: Instant) -> Duration {
+            self.saturating_duration_since(earlier)
+        }
+        pub fn saturating_duration_since(&self, earlier: Instant) -> Duration {
+            Duration::from_nanos(self.0.saturating_sub(earlier.0))
+        }
+        pub fn checked_duration_since(&self, earlier: Instant) -> Option<Duration> {
+            self.0.checked_sub(earlier.0).map(Duration::from_nanos)
+        }
+        pub fn checked_add(&self, d: Duration) -> Option<Instant> {
+            u64::try_from(d.as_nanos()).ok().and_then(|n| self.0.checked_add(n)).map(Instant)
+        }
+        pub fn checked_sub(&self, d: Duration) -> Option<Instant> {
+            u64::try_from(d.as_nanos()).ok().and_then(|n| self.0.checked_sub(n)).map(Instant)
+        }
+    }
+    impl Add<Duration> for Instant {
+        type Output = Instant;
+        fn add(self, d: Duration) -> Instant {
+            self.checked_add(d).expect("overflow when adding duration to instant")
+        }
+    }
+    impl AddAssign<Duration> for Instant {
+        fn add_assign(&mut self, d: Duration) {
+            *self = *self + d;
+        }
+    }
+    impl Sub<Duration> for Instant {
+        type Output = Instant;
+        fn sub(self, d: Duration) -> Instant {
+            self.checked_sub(d).expect("overflow when subtracting duration from instant")
+        }
+    }
+    impl SubAssign<Duration> for Instant {
+        fn sub_assign(&mut self, d: Duration) {
+            *self = *self - d;
+        }
+    }
+    impl Sub<Instant> for Instant {
+        type Output = Duration;
+        fn sub(self, other: Instant) -> Duration {
+            self.saturating_duration_since(other)
+        }
+    }
+}
+
+/// The facade for builds without the controlled scheduler (netsim): everything is std's, except that
+/// `std::time::Instant` reads the simulated monotonic clock - so a packet-path module that measures elapsed time
+/// (hook H5 makes the name `std` resolve here) measures simulated time, which the simulator moves.
+#[cfg(not(huginn_net_verif_sched))]
+pub mod std {
+    pub use ::std::*;
+    pub mod time {
+        pub use crate::simtime::*;
+    }
+}
+
 #[cfg(huginn_net_verif_sched)]
 pub mod std {
     pub use ::std::*;
 
-    /// `std::time` with `Instant` read from the simulated monotonic clock: a worker that measures how
-    /// long it has been idle measures simulated time, which the simulator can move
     pub mod time {
-        pub use ::std::time::{Duration, SystemTime, SystemTimeError, UNIX_EPOCH};
-        use ::std::ops::{Add, AddAssign, Sub, SubAssign};
-
-        #[derive(Clone, Copy, PartialEq, Eq, PartialOrd, Ord, Hash, Debug)]
-        pub struct Instant(u64);
-
-        impl Instant {
-            pub fn now() -> Instant {
-                Instant(crate::clock::mono_ns().saturating_add(crate::clock::work_ns()))
-            }
-            pub fn elapsed(&self) -> Duration {
-                Instant::now().saturating_duration_since(*self)
-            }
-            pub fn duration_since(&self, earlier: Instant) -> Duration {
-                self.saturating_duration_since(earlier)
-            }
-            pub fn saturating_duration_since(&self, earlier: Instant) -> Duration {
-                Duration::from_nanos(self.0.saturating_sub(earlier.0))
-            }
-            pub fn checked_duration_since(&self, earlier: Instant) -> Option<Duration> {
-                self.0.checked_sub(earlier.0).map(Duration::from_nanos)
-            }
-            pub fn checked_add(&self, d: Duration) -> Option<Instant> {
-                u64::try_from(d.as_nanos()).ok().and_then(|n| self.0.checked_add(n)).map(Instant)
-            }
-            pub fn checked_sub(&self, d: Duration) -> Option<Instant> {
-                u64::try_from(d.as_nanos()).ok().and_then(|n| self.0.checked_sub(n)).map(Instant)
-            }
-        }
-        impl Add<Duration> for Instant {
-            type Output = Instant;
-            fn add(self, d: Duration) -> Instant {
-                self.checked_add(d).expect("overflow when adding duration to instant")
-            }
-        }
-        impl AddAssign<Duration> for Instant {
-            fn add_assign(&mut self, d: Duration) {
-                *self = *self + d;
-            }
-        }
-        impl Sub<Duration> for Instant {
-            type Output = Instant;
-            fn sub(self, d: Duration) -> Instant {
-                self.checked_sub(d).expect("overflow when subtracting duration from instant")
-            }
-        }
-        impl SubAssign<Duration> for Instant {
-            fn sub_assign(&mut self, d: Duration) {
-                *self = *self - d;
-            }
-        }
-        impl Sub<Instant> for Instant {
-            type Output = Duration;
-            fn sub(self, other: Instant) -> Duration {
-                self.saturating_duration_since(other)
-            }
-        }
+        pub use crate::simtime::*;
     }
 
     pub mod thread {
